@@ -1,6 +1,7 @@
 import ElfioVerif.Props.C07
 import ElfioVerif.Model.Symbols
 import ElfioVerif.Spec.Symbols
+import ElfioVerif.Lemmas.SymbolsTie
 namespace ElfioVerif
 open Gen
 
@@ -283,7 +284,7 @@ theorem symbolsNum_eq {t : SymTab} {symB strB : Bytes} (h : Wf t symB strB) :
   have hsz := h.sym.size
   have hst := h.stream
   have hlt := t.sym.size.isLt
-  unfold symbolsNum countOf
+  rw [symbolsNum_hand]; unfold countOf
   rw [h.ent]
   cases hc : t.cfg.cls <;>
     simp only [symSizeOf, sym_num_cond, sym_num_min32, sym_num_min64, sym_num_div, sizeof_Elf32_Sym,
@@ -434,7 +435,7 @@ theorem insertFinish_frame (b : SecBuf) (ns n : BitVec 64) :
     (b.insertFinish ns n).entSize = b.entSize ∧ (b.insertFinish ns n).link = b.link ∧
     (b.insertFinish ns n).translatorEmpty = b.translatorEmpty ∧
     (b.insertFinish ns n).streamSize = (if b.translatorEmpty then b.streamSize + n else b.streamSize) := by
-  unfold SecBuf.insertFinish SecBuf.setSize
+  rw [SecBuf.insertFinish_hand]; unfold SecBuf.setSize
   cases b.cls <;> simp only <;> split <;> simp_all
 
 /-- `insert_data` either leaves the header alone or finishes with `set_size` + stream-size update -/
